@@ -116,7 +116,11 @@ def gen_chain(rng):
     distributor must put everything linked through aliases on one worker; every hunk depends on the previous
     change of its file, so a file patch run by the wrong worker (on the pristine file) fails"""
     m = rng.randint(2, 5)
-    files = {b"f%d.txt" % j: (b"head\nv0\ntail\n", 0o644) for j in range(m)}
+    # some files start as EMPTY files: the first file patch for such a file is a creation ('@@ -0,0 +1,3 @@') that is
+    # applied to the existing empty file - with two different names it relates them like any other file patch
+    # (seeded C07-h: creations were scheduled by their new name only)
+    empty = {j for j in range(m) if rng.random() < 0.3}
+    files = {b"f%d.txt" % j: (b"" if j in empty else b"head\nv0\ntail\n", 0o644) for j in range(m)}
     version = [0] * m
     k = rng.randint(3, 7)
     aliases = [b"alias%d" % i for i in range(k)]
@@ -136,7 +140,10 @@ def gen_chain(rng):
                 o, nw = real, real
             else:
                 o, nw = rng.choice(aliases) + b".orig", real
-            text += old_new_hunk(b"a/" + o, b"b/" + nw, version[j])
+            if j in empty and version[j] == 0:
+                text += b"--- a/" + o + b"\n+++ b/" + nw + b"\n@@ -0,0 +1,3 @@\n+head\n+v1\n+tail\n"
+            else:
+                text += old_new_hunk(b"a/" + o, b"b/" + nw, version[j])
             version[j] += 1
         name = b"c%d.patch" % pi
         patches[name] = text
